@@ -65,6 +65,20 @@ fn serve(mut s: UnixStream) -> Vec<(Vec<u8>, Result<ReqMsg, String>)> {
                 Req::Abandon(_) => {}
                 _ if b == "silent" => {}
                 _ if b == "close" => return log,
+                Req::Search { .. } if b.starts_with("trickle") => {
+                    // entries 20 ms apart: every gap is far below the client's per-item timeout, the whole
+                    // exchange is longer than it
+                    let n: usize = b.trim_start_matches("trickle").parse().unwrap_or(0);
+                    for k in 0..n {
+                        let e = ber::encode_min(&resp_node(m.id, &Resp::Entry { dn: format!("e={}.{},dc=x", tok, k).into_bytes(), attrs: vec![] }, None));
+                        if s.write_all(&e).is_err() {
+                            peer_gone = true;
+                            break;
+                        }
+                        std::thread::sleep(Duration::from_millis(20));
+                    }
+                    out.extend_from_slice(&ber::encode_min(&resp_node(m.id, &Resp::Done(Res::ok(&format!("t:{}:done", tok))), None)));
+                }
                 Req::Search { .. } => {
                     if let Some(n) = b.strip_prefix("items") {
                         let n: usize = n.parse().unwrap_or(0);
@@ -399,7 +413,9 @@ pub fn gen_script(rng: &mut Rng, i: u64) -> Vec<SOp> {
             2 | 3 => {
                 let mut s = gen::gen_search(rng, tok);
                 s.opts = None;
-                let (b, ad) = match rng.below(5) {
+                let span = if rng.chance(1, 6) { 6 } else { 5 };
+                let (b, ad) = match rng.below(span) {
+                    5 => ("trickle25".to_string(), rng.below(2) as u8),
                     0 => ("paged7".to_string(), 2 + rng.below(2) as u8),
                     1 => (format!("items{}", rng.usize(9)), rng.below(2) as u8),
                     2 => (behaviour.clone(), rng.below(2) as u8),
@@ -409,6 +425,9 @@ pub fn gen_script(rng: &mut Rng, i: u64) -> Vec<SOp> {
                 let mut m = mods.clone();
                 if b == "silent" {
                     m.timeout_ms = Some(60);
+                }
+                if b == "trickle25" {
+                    m.timeout_ms = Some(350);
                 }
                 let reads = if rng.chance(1, 3) { Some(rng.usize(6)) } else { None };
                 if rng.chance(1, 7) {
@@ -427,11 +446,14 @@ pub fn gen_script(rng: &mut Rng, i: u64) -> Vec<SOp> {
             4 => {
                 let mut s = gen::gen_search(rng, tok);
                 s.opts = None;
-                let b = if behaviour == "silent" || behaviour == "close" { behaviour.clone() } else { format!("items{}", rng.usize(9)) };
+                let b = if behaviour == "silent" || behaviour == "close" { behaviour.clone() } else if rng.chance(1, 25) { "trickle25".to_string() } else { format!("items{}", rng.usize(9)) };
                 s.base = with_behaviour(&s.base, &b);
                 let mut m = mods.clone();
                 if b == "silent" {
                     m.timeout_ms = Some(60);
+                }
+                if b == "trickle25" {
+                    m.timeout_ms = Some(350);
                 }
                 if rng.chance(1, 7) {
                     s.filter_str = rng.pick(&[&b"(unbalanced"[..], b"(a=b)(c=d)", b"", b"(&(a=b)", b"(a=\\zz)"]).to_vec();
@@ -493,6 +515,32 @@ fn run_pair(script: &[SOp]) -> Result<((Vec<Obs>, Vec<(Vec<u8>, Result<ReqMsg, S
 
 fn run_case(i: u64, rng: &mut Rng, rep: &mut Report, verbose: bool) {
     let script = gen_script(rng, i);
+    let timing_sensitive = script.iter().any(|op| match op {
+        SOp::Call(Call::Search(s), _) | SOp::Stream(s, ..) => behaviour_of(s.base.as_bytes()).starts_with("trickle"),
+        _ => false,
+    });
+    if !timing_sensitive {
+        return run_script(i, script, rep, verbose);
+    }
+    // a script with a trickling search depends on real time (20 ms gaps against a 350 ms timeout):
+    // a difference is only believed if it shows again when the script is run a second time
+    let mut first = Report::new();
+    run_script(i, script.clone(), &mut first, verbose);
+    if first.violations.is_empty() {
+        rep.merge(first);
+        return;
+    }
+    let mut second = Report::new();
+    run_script(i, script, &mut second, verbose);
+    if second.violations.is_empty() {
+        rep.inconclusive(format!("case {}: a difference in a timing-sensitive script was not reproduced on a second run: {:?}", i, first.violations.keys().collect::<Vec<_>>()));
+        rep.merge(second);
+    } else {
+        rep.merge(second);
+    }
+}
+
+fn run_script(i: u64, script: Vec<SOp>, rep: &mut Report, verbose: bool) {
     let replay = json!({"lane":"differential","case":i});
     let ((so, sl), (ao, al)) = match run_pair(&script) {
         Ok(x) => x,
